@@ -156,7 +156,10 @@ impl Prop for Pair {
             }
             cx.nt("operands_carry_offsets");
             let r = catch(|| {
-                let a = mk_dt_off_any(c.a.i(), c.oa);
+                let (a, local) = mk_dt_off_pin(c.a.i(), c.oa);
+                if local {
+                    cx.nt("operand_carries_Offset::Local");
+                }
                 let b = mk_dt_off_any(c.b.i(), c.ob);
                 // the property's own definition, with the library's add_months and ordering:
                 // b.add_months(n) <= a < b.add_months(n + 1)
